@@ -8,6 +8,7 @@ CONSTANTS
   Kinds = {"asg", "read", "cread", "wal", "cex", "comp", "ret", "match", "with", "if", "dead"}
   HSh <- HShFin
   AsVars = TRUE
+  Pre <- PreNone
   MaxWord = 6
   Dump = TRUE
 INVARIANT GenWellFormed
